@@ -93,6 +93,31 @@ pub fn run(ctx: &mut Ctx) {
     let mut uniq = 0usize;
     for _ in 0..ctx.n {
         match ctx.rng.below(10) {
+            0..=4 if ctx.rng.chance(12) => {
+                // ---- words defined inside a block are gone when THAT block closes (also when it is nested in another
+                // block): a later use of the name means what it meant before, or nothing
+                ctx.tag("kind:purged-words");
+                let (a, b) = (ctx.rng.range(0, 90), ctx.rng.range(100, 190));
+                let (a_src, b_src) = match ctx.rng.below(8) {
+                    0 => (format!(": g {} ; #( #( : g {} ; g #) g #)", a, b), format!(": g {} ; #( {} g #)", a, b)),
+                    1 => (format!("#( #( : g {} ; #) g 5 #)", b), "#( g 5 #)".to_string()),
+                    2 => (format!(": g {} ; #( : g {} ; g #) g", a, b), format!(": g {} ; {} g", a, b)),
+                    3 => (format!("#( : h {} ; h #) h", b), format!("{} h", b)),
+                    4 => (format!(": g {} ; [ #( #( : g {} ; g #) g 1 + #) ]", a, b), format!(": g {} ; [ #( {} g 1 + #) ]", a, b)),
+                    5 => (format!("{} var v #( #( : v {} ; v #) #) v", a, b), format!("{} var v {} v", a, b)),
+                    6 => (format!(": g {} ; #( #( #( : g {} ; g #) g #) g #)", a, b), format!(": g {} ; #( #( {} g #) g #)", a, b)),
+                    _ => (format!(": g {} ; : w #( #( : g {} ; g #) g + #) ; w g", a, b), format!(": g {} ; : w #( {} g + #) ; w g", a, b)),
+                };
+                let compile_run = ctx.rng.chance(30);
+                let ops_a: Vec<Op> = if compile_run { vec![Op::Compile(a_src.clone()), Op::Run] } else { vec![Op::Eval(a_src.clone())] };
+                let ops_b: Vec<Op> = if compile_run { vec![Op::Compile(b_src.clone()), Op::Run] } else { vec![Op::Eval(b_src.clone())] };
+                correspondence(ctx, "C11", &ops_a);
+                let (mut xa, mut xb) = (fresh(), fresh());
+                let ra: Vec<String> = ops_a.iter().map(|o| apply(&mut xa, o)).collect();
+                let rb: Vec<String> = ops_b.iter().map(|o| apply(&mut xb, o)).collect();
+                let (sa, sb) = (outcome_sig(&mut xa, &[]), outcome_sig(&mut xb, &[]));
+                ctx.check(ra == rb && sa == sb, || format!("C11 purged-words `{}` vs `{}`", a_src, b_src), || format!("{:?} {}", rb, sb), || format!("{:?} {}", ra, sa));
+            }
             0..=4 => {
                 // ---- inline: P[#( e #)] vs P[values]
                 ctx.tag("kind:inline");
